@@ -1,7 +1,7 @@
 """Property -> rules registry (DESIGN.md sections 0, 4, 5)."""
 import copy
 
-from rules import g_thread, g_cover, g_alt, g_struct, k_keywords, t_tree, x_pp, x_calls, w_api
+from rules import g_thread, g_cover, g_alt, g_struct, g_lex, k_keywords, t_tree, x_pp, x_calls, w_api, s_state, p_panic
 
 TRUSTED_BASE = [
     'rustc front end / MIR construction (nightly 1.97) and syn 2 as parsers of the Rust sources',
@@ -14,6 +14,7 @@ _cache = {}
 
 MODULES = {
     'g_thread': g_thread.run, 'g_cover': g_cover.run, 'g_alt': g_alt.run, 'g_struct': g_struct.run,
+    'g_lex': g_lex.run, 's_state': s_state.run, 'p_panic': p_panic.run,
     'k_keywords': k_keywords.run, 't_tree': t_tree.run, 'x_pp': x_pp.run, 'x_calls': x_calls.run, 'w_api': w_api.run,
 }
 # rule id -> module that computes it
@@ -27,6 +28,9 @@ RULE_HOME = {
     'X1': 'x_pp', 'X2': 'x_pp', 'X3': 'x_pp', 'X5': 'x_pp', 'X6': 'x_pp', 'X7': 'x_pp',
     'X8': 'x_calls', 'X9': 'x_calls', 'X10': 'x_calls', 'X11': 'x_calls', 'X12': 'x_calls', 'P2': 'x_calls',
     'W1': 'w_api', 'W2': 'w_api', 'W3': 'w_api', 'W4': 'w_api', 'W5': 'w_api',
+    'G2': 'g_lex', 'G4': 'g_lex',
+    'S1': 's_state', 'S2': 's_state', 'S3': 's_state', 'S4': 's_state', 'S5': 's_state', 'S6': 's_state', 'S7': 's_state',
+    'P1': 'p_panic',
 }
 
 
@@ -64,10 +68,12 @@ LOOKAHEAD = ['lookahead-no-boundary']
 
 PROPS = {
     'C01': {
-        'rules': [rule('G0'), rule('G1'), rule('G3'), rule('G10'), rule('G11'), rule('T1'), rule('T2'), rule('T3'),
+        'rules': [rule('G0'), rule('G1'), rule('G2'), rule('G3'), rule('G4'), rule('G10'), rule('G11'), rule('T1'), rule('T2'), rule('T3'),
                   rule('G4c'), rule('W4'), rule('W5')],
         'explanation': 'Structural-induction premises for "the leaves of the tree tile the preprocessed text". Terminals: the token '
-                       'helpers keep the lexeme and its trailing trivia (G0, G1 on the helper closures). Sequencing: every one of '
+                       'helpers keep the lexeme and its trailing trivia (G0, G1 on the helper closures); multi-fragment lexemes join their '
+                       'fragments in order and convert the whole joined span (G2, 28 lexeme functions); Locate = byte offset / line / '
+                       'byte length of the fragment and concat keeps the first fragment\'s position (G4). Sequencing: every one of '
                        'the ~1300 productions threads the input span linearly and returns a node containing each consumed output '
                        'exactly once, in consumption order, by construction only (G1); output is discarded only from look-ahead '
                        '(G3). Enumeration: the RefNodes conversions (T1) and the derive-generated next()/into_iter()/Locate-merge '
@@ -76,9 +82,9 @@ PROPS = {
                        'a prefix). Same text: a SyntaxTree is built only together with the text that was parsed (W4) and '
                        'get_str slices first-leaf-start .. last-leaf-end of it (W5). By induction over the grammar the leaves, in '
                        'iteration order, are adjacent and start at 0.',
-        'decided': 'G0 G1 G3 G10 G11 T1 T2 T3 G4c W4 W5',
+        'decided': 'G0 G1 G2 G3 G4 G10 G11 T1 T2 T3 G4c W4 W5',
         'not_decided': 'correctness of nom / nom_locate (trusted): byte offsets, line counting and char boundaries of the '
-                       'fragments the lexers return; coverage of multi-fragment lexemes (G2) is checked separately when registered',
+                       'fragments the lexers return',
         'assumptions': ['nom 7 combinators and nom_locate behave as documented',
                         'trees are produced by the parser (node structs have public fields; hand-built trees are outside the claim)'],
         'level_text': 'Exhaustive static check of the structural-induction premises of losslessness over every production of the '
@@ -223,6 +229,107 @@ PROPS = {
         'level_text': 'Wrapper-equivalence by structural identity and argument threading, checked for every call site.',
         'level_note': '',
         'technique': 'sibling AST equality modulo substitution + named-parameter threading lint',
+    },
+    'C07': {
+        'rules': [rule('S1'), rule('S2'), rule('S7'), rule('S3'), rule('G13')],
+        'explanation': 'The result of a call can depend on its arguments, on files, or on mutable state that outlives a call. S1 '
+                       'enumerates the latter completely from the type-checked program (every static of the six crates; the '
+                       'thread-local keys of the parser crate; no other crate has any) and shows that each key is cleared by a '
+                       'function reachable from init(); S2 shows that the externally reachable functions of the parser crate that '
+                       'reach the grammar are exactly the five entries and that each calls init() first (nothing else is a door); '
+                       'S7 covers the one piece of per-thread state living in std (HashMap seeds): the only hash-map iteration '
+                       'feeds an insert into another map; G13 keeps nom-recursive\'s name->bit table meaning-free (capacity '
+                       'suffices); S3 (scope balance) is reported here informationally, leaks being erased by the next init().',
+        'decided': 'S1 S2 S7 G13 (+S3) — as a whole',
+        'not_decided': 'statics inside third-party dependencies are inventoried in the thorough tier (S5 closure)',
+        'assumptions': ['nom_recursive::RECURSIVE_STORAGE maps parser names to bit indexes monotonically; its content has no effect on results while G13b holds'],
+        'level_text': 'Complete inventory of state that outlives a call + reset exhaustiveness + entry dominance, decided on MIR with '
+                      'resolved callees; covers every history of previous calls (failed, aborted by the recursion limit, open '
+                      '`begin_keywords) because init() clears every item unconditionally.',
+        'level_note': 'trusts that thread_local! storage is what std documents; dependency crates audited in the thorough tier',
+        'technique': 'MIR-level state inventory, reachability (reset exhaustiveness) and must-call-first dominance check',
+        'needs_mir': True,
+    },
+    'C08': {
+        'rules': [rule('P1'), rule('P2'), rule('S6'), rule('G13'), rule('X8'), rule('G2'), rule('G9')],
+        'explanation': 'Every panic-capable site of the five runtime crates (found on MIR: unwrap/expect, core::panicking, indexing, '
+                       'RefCell borrows, Assert terminators) is put in a class and each class is discharged by a structural rule: '
+                       'lexeme joins by G2 (adjacent by construction, many1 non-empty); Locate::try_from(&node).unwrap() by "the node '
+                       'type must contain a Locate on every shape" (least fixed point over the CST type graph); identifier(..).unwrap() '
+                       'likewise for identifiers; Range::new\'s assert by the form of all call sites; Locate::str slicing by "callers '
+                       'pass their own text"; RefCell borrows by S6 (with-closures are leaves); the derive\'s adjacency assert by '
+                       'C01. io errors are mapped (P2); nom\'s loop guard is an Err (G9); recursion is bounded (X8); the recursion '
+                       'tracer cannot overflow (G13).',
+        'decided': 'P1 P2 S6 G13 X8 G2 G9',
+        'not_decided': 'panics inside third-party crates on their own invariants; stack exhaustion by bracket nesting (excluded by the statement); '
+                       'arithmetic-overflow checks of debug builds (excluded by kind)',
+        'assumptions': ['nodes handed to Locate::try_from / iteration come from a parse (node structs have public fields)'],
+        'level_text': 'Panic-site inventory on MIR with every site discharged by a checked structural fact; an undischarged or new '
+                      'panic-capable call is named.',
+        'level_note': 'the discharge arguments are reductions to other checked rules, not proofs of the called library code',
+        'technique': 'MIR panic-site inventory + type-graph least fixed point (must-contain) + call-site form checks',
+        'needs_mir': True,
+    },
+    'C12': {
+        'rules': [rule('S3'), rule('G12'), rule('G5')],
+        'explanation': 'A directive parsed as trivia leaves the directive stack and the keyword-version stack as it found them on every '
+                       'path: forward dataflow over the MIR CFG of all 8310 bodies of the parser crate computes the net effect at each '
+                       'return; every body is neutral except the two directives whose meaning is the effect (S3). Every grammar-level '
+                       'terminal skips trivia through ws(); raw lexers occur only inside lexemes, inline token definitions or '
+                       'look-ahead; tokens without trailing trivia are joined only in the enumerated contexts (G12). The four trivia '
+                       'kinds and `resetall as a description are reachable and constructed (G5).',
+        'decided': 'S3 G12 G5',
+        'not_decided': 'equality of trees under re-layout (a relation between two runs)',
+        'assumptions': [],
+        'level_text': 'Path-sensitive (per-CFG-path) scope-balance analysis on MIR + token-layering lint over the grammar.',
+        'level_note': 'partial: necessary conditions',
+        'technique': 'MIR forward dataflow (net push/pop effect per path) + grammar layering lint',
+        'needs_mir': True,
+    },
+    'C13': {
+        'rules': [rule('K1'), rule('K2'), rule('K3'), rule('K4'), rule('S3'), rule('S4')],
+        'explanation': 'The eight keyword tables equal the reserved-word sets of IEEE 1800-2017 22.14 / Annex B (independent oracle, 1452 '
+                       'words) and the directive table the 20 directive names (K1); begin_keywords maps each specifier to the Version '
+                       'of the same name and is_keyword each Version to the table of the same name, default 1800-2017, comparing the '
+                       'whole lexeme (K2); version_specifier has one keyword()/begin_keywords pair per specifier (K3); every '
+                       'SimpleIdentifier/CIdentifier lexer refuses is_keyword(whole lexeme) (K4); the version stack is pushed/popped '
+                       'in matched pairs on every path except by the two directives (S3); the remaining way it can drift — the '
+                       'directive effect replayed or skipped by memo hits, and the un-keyed CURRENT_VERSION — is S4.',
+        'decided': 'K1 K2 K3 K4 S3 S4',
+        'not_decided': '',
+        'assumptions': ['oracle/keywords.json is a faithful transcription of the standard'],
+        'level_text': 'Table-vs-standard comparison, dispatch agreement and scope balance, all exhaustive over their finite domains.',
+        'level_note': 'S4 findings are by-design (known findings)',
+        'technique': 'oracle table comparison + dispatch-agreement lint + MIR scope-balance dataflow',
+        'needs_mir': True,
+    },
+    'C17': {
+        'rules': [rule('S4'), rule('G13'), rule('S3')],
+        'explanation': 'Necessary conditions for the memo being transparent: keys are unique (the memo is keyed by the bare function '
+                       'name: G13a); the extra key covers every thread-local that memoised parsers (transitively) access (S4a); '
+                       'memoised parsers have no effect besides their result (S4b); scopes are balanced so that a replayed result '
+                       'was computed in the same scope depth (S3).',
+        'decided': 'S4 G13 S3',
+        'not_decided': 'recursion flags carried in the span (nom-recursive) are also inputs of 93 memoised functions and not in the key — library design',
+        'assumptions': [],
+        'level_text': 'Effect/dependency analysis of all 1210 memoised parsers over the resolved call graph.',
+        'level_note': 'the two by-design violations (keyword-version stack) are known findings F2',
+        'technique': 'MIR call-graph reachability to thread-local accessors (purity / key-coverage check)',
+        'needs_mir': True,
+    },
+    'C19': {
+        'rules': [rule('S5')],
+        'explanation': 'Safe Rust + no writable shared static + no process-global effect => calls on different threads cannot observe each '
+                       'other. S5 checks on MIR that every static of the workspace crates is thread-local or immutable and Freeze, that '
+                       'no body calls an environment/file-system-writing/process/atomics/sync API (88 000 call sites scanned), and that '
+                       'the only unsafe callees are the three audited ones, each touching only its arguments.',
+        'decided': 'S5 (as a whole, for the workspace crates; dependency closure in the thorough tier)',
+        'not_decided': '',
+        'assumptions': ['Rust aliasing rules for safe code', 'memchr\'s AtomicPtr CPU-feature dispatch is idempotent'],
+        'level_text': 'The standard Rust data-race-freedom argument made explicit and checked exhaustively on the type-checked program.',
+        'level_note': '',
+        'technique': 'MIR static/effect inventory (shared-state and global-effect freedom)',
+        'needs_mir': True,
     },
 }
 
